@@ -84,10 +84,12 @@ Definition cinv_b (c : circ) : bool :=
 (** ** well-formed use *)
 Definition io_ok_b (c : circ) : bool :=
   forallb (fun e => match e with Some n => mem n (nodes c) | None => false end) (io c).
-(* a 1:1 fork outside the interface has exactly one input connection *)
+(* a 1:1 fork outside the interface that HAS a driver at input pin 0 (the forks the loop removes) has no other input connection.
+   Forks without driver (ins = [] or ins[0] = None: stub forks of unconnected instance inputs after substitute / resolve_tlib_cells)
+   are inside well-formed use since the fix of D38: the loop leaves them alone. *)
 Definition elim_ok_b (c : circ) : bool :=
   forallb (fun n => in_ios c n || negb (Nat.eqb (List.length (outs_of c n)) 1) ||
-                    match ins_of c n with Some _ :: r => all_none r | _ => false end) (map snd (forks c)).
+                    match ins_of c n with Some _ :: r => all_none r | _ => true end) (map snd (forks c)).
 (* substitute: the instance is a listed cell, the implementation is a consistent circuit whose interface nodes are
    listed, and the asserts / dictionary lookups of the code succeed (pin counts fit, generated names are fresh,
    every connected instance pin finds its node). *)
